@@ -243,6 +243,10 @@ def run(ctx):
     ctx.guard(_variances, ctx, py)
     ctx.guard(_apply_imu, ctx, py)
 
+    # frame of the modules under contract (no state kept between calls, arguments left alone): same analysis as C19
+    from props import C19 as _C19
+    ctx.guard(_C19.frame_obligations, ctx, py, "C14", {'inertial_sensor'})
+
 
 def _native_mask(py, mask):
     """replay a failing mask with concrete numbers against the documented layout"""
@@ -360,6 +364,41 @@ def _undo(ctx, py):
                "single-row (Series) form: same identity, name and index preserved")
         ctx.ob("C14.undo.%s.det_is_requires" % stype, "d", len(dets) >= 1, "stub-log", 0.0,
                "np.linalg.solve precondition det(transform) != 0 is the contract's `requires` (%d solves)" % len(dets))
+        # the same, USED model after reset_estimates: whatever was estimated and corrected before, the correction is the
+        # identity again (both filters reset the caller's models before use; nothing may survive a reset)
+        t1 = time.time()
+        with rdomain(py, extra=[(IS, dict(check_random_state=lambda r: r))]):
+            m.reset_estimates()
+            again = m.correct_increments(dts, inc_y)
+            again_row = m.correct_increments(dts.iloc[1], inc_y.iloc[1])
+            m.update_estimates(half)
+            m.update_estimates(half)
+            cor2 = m.correct_increments(dts, inc_y)
+        res_id = [sp.sympify(unwrap(a_)) - sp.sympify(unwrap(b_)) for a_, b_ in zip(list(again.values.reshape(-1)) + list(again_row.values), list(inc_y.values.reshape(-1)) + list(inc_y.iloc[1].values))]
+        res_2 = [sp.sympify(unwrap(a_)) - sp.sympify(unwrap(b_)) for a_, b_ in zip(cor2.values.reshape(-1), truth.values.reshape(-1))]
+        bad_id = [k for k, e_ in enumerate(res_id) if field.check_zero(sp.together(e_), domain=dmn, seed=ctx.seed + k).status != "proved"]
+        bad_2 = [k for k, e_ in enumerate(res_2) if field.check_zero(sp.together(e_), domain=dmn, seed=ctx.seed + k).status != "proved"]
+        ok_r = not bad_id and not bad_2
+        ctx.ob("C14.undo.%s.after_reset" % stype, "a", ok_r, "field-nf", time.time() - t1,
+               "a model that has been updated and used: after reset_estimates the correction is the identity (table and row forms), and "
+               "re-estimating the same parameters undoes the simulated error again" if ok_r else "identity cells failing: %s; re-estimated cells failing: %s" % (bad_id[:4], bad_2[:4]),
+               cex=None if ok_r else dict(sensor_type=stype), native=None if ok_r else _native_reset(py, stype))
+
+
+def _native_reset(py, stype):
+    IS = py.inertial_sensor
+    rng = np.random.RandomState(1)
+    t = np.array([0.0, 0.1, 0.35, 0.4, 0.9])
+    inc = pd.DataFrame(rng.randn(4, 3), index=t[1:], columns=["gyro_x", "gyro_y", "gyro_z"])
+    dt = pd.Series(np.diff(t), index=t[1:])
+    m = IS.EstimationModel(bias_sd=1.0, scale_misal_sd=np.ones((3, 3)))
+    m.reset_estimates()
+    m.update_estimates(np.concatenate([rng.randn(3) * 0.1, 0.05 * rng.randn(9)]))
+    m.correct_increments(dt, inc)
+    m.reset_estimates()
+    out = m.correct_increments(dt, inc)
+    err = float(np.max(np.abs(out.values - inc.values)))
+    return dict(reproduced=bool(err > 1e-12), sequence="update_estimates(x); correct_increments; reset_estimates; correct_increments", deviation_from_identity=err)
 
 
 def _native_undo(py, stype):
